@@ -84,7 +84,8 @@ def gen_case(rng, kind, subtype):
             "container": CONTAINERS[int(rng.integers(3))],
             "index_kind": gf.INDEX_KINDS[int(rng.integers(len(gf.INDEX_KINDS)))],
             "sindex": cfg, "form": ["direct", "sliced", "take"][int(rng.integers(3))],
-            "queries2": qs, "seed": int(rng.integers(2 ** 31))}
+            "queries2": qs, "seed": int(rng.integers(2 ** 31)),
+            "derive": [None, None, "tail", "head", "from", "neg-head", "copy"][int(rng.integers(7))]}
 
 
 def build(case, with_index):
@@ -108,6 +109,27 @@ def build(case, with_index):
         p, ps = case["sindex"]
         obj = obj.build_sindex(p=p, page_size=ps)
     return obj, idx
+
+
+def derive(obj, container, how, n):
+    """Derive a child object from an (indexed) parent; returns (child, positions kept)."""
+    k = max(1, n // 3)
+    if how == "tail":
+        sl = slice(-k, None)
+    elif how == "head":
+        sl = slice(None, k)
+    elif how == "from":
+        sl = slice(k, None)
+    elif how == "neg-head":
+        sl = slice(None, -k)
+    else:
+        sl = slice(None, None)
+    pos = list(range(n))[sl]
+    if how == "copy":
+        return (obj.copy(), pos)
+    if container == "array":
+        return obj[sl], pos
+    return obj.iloc[sl], pos
 
 
 def snapshot(obj, container):
@@ -142,6 +164,20 @@ def check_case(ctx, case):
     if not ok:
         return rec_raise("build-noindex", r2, tb)
     plain, _ = r2
+    if case.get("derive") and n > 1:
+        # index state "built on the parent, then sliced": the child must answer for its own rows
+        ok, d1, tb = ctx.guarded(derive, obj, container, case["derive"], n)
+        if not ok:
+            return rec_raise("derive", d1, tb)
+        ok, d2, tb = ctx.guarded(derive, plain, container, case["derive"], n)
+        if not ok:
+            return rec_raise("derive-noindex", d2, tb)
+        obj, pos = d1
+        plain = d2[0]
+        els = [els[i] for i in pos]
+        idx = [idx[i] for i in pos]
+        n = len(els)
+        case = {**case, "elements_after_derivation": els}
     arr = obj if container == "array" else (obj.array if container == "series" else obj["shape"].array)
     vals = gg.pylist(arr)
     if len(vals) != n or not all(gg.same_value(a, b) for a, b in zip(vals, els)):
@@ -195,7 +231,7 @@ def check_case(ctx, case):
                 pass
         if cov:
             ctx.require("covered-rows-shortcut-taken", True)
-        ctx.sig(kind, container, "indexed" if indexed else "noindex", rel, pattern, rev or "-",
+        ctx.sig(kind, container, "indexed" if indexed else "noindex", f"derived-{case.get('derive')}" if case.get("derive") else "-", rel, pattern, rev or "-",
                 "inert" if has_inert else "-", "cov+" if cov else "cov0",
                 "none" if not sel else "all" if len(sel) == n else "some")
         ctx.case([kind, subtype, els, container, case["sindex"], q],
